@@ -5,19 +5,149 @@
 use crate::reflua::ast::*;
 use crate::reflua::parser::{parse_block, Mode};
 
+thread_local! {
+    /// identifier of the inject_global_value rule of the case being classified
+    pub static INJECT_NAME: std::cell::RefCell<Option<String>> = std::cell::RefCell::new(None);
+}
+
+fn shadowed_prefix_use(b: &Block, name: &str, shadowed: bool) -> bool {
+    // is `name` used as the prefix of a field / index / call while a local of that name is in scope?
+    let mut sh = shadowed;
+    for s in &b.stmts {
+        let exprs: Vec<&Expr> = match s {
+            Stmt::Local { values, .. } => values.iter().collect(),
+            Stmt::Assign { targets, values } => targets.iter().chain(values.iter()).collect(),
+            Stmt::Call(e) => vec![e],
+            Stmt::Return(es) => es.iter().collect(),
+            Stmt::CompoundAssign { target, value, .. } => vec![target, value],
+            _ => vec![],
+        };
+        if sh && exprs.iter().any(|e| prefix_use(e, name)) {
+            return true;
+        }
+        match s {
+            Stmt::Local { names, .. } => {
+                if names.iter().any(|n| n.name == name) {
+                    sh = true;
+                }
+            }
+            Stmt::LocalFunction { name: n, func } => {
+                if n == name {
+                    sh = true;
+                }
+                if shadowed_prefix_use(&func.body, name, sh || func.params.iter().any(|p| p.name == name)) {
+                    return true;
+                }
+            }
+            Stmt::Do(b) => {
+                if shadowed_prefix_use(b, name, sh) {
+                    return true;
+                }
+            }
+            Stmt::While { body, .. } | Stmt::Repeat { body, .. } => {
+                if shadowed_prefix_use(body, name, sh) {
+                    return true;
+                }
+            }
+            Stmt::NumFor { var, body, .. } => {
+                if shadowed_prefix_use(body, name, sh || var.name == name) {
+                    return true;
+                }
+            }
+            Stmt::GenFor { vars, body, .. } => {
+                if shadowed_prefix_use(body, name, sh || vars.iter().any(|v| v.name == name)) {
+                    return true;
+                }
+            }
+            Stmt::If { clauses, else_block } => {
+                for (_, b) in clauses {
+                    if shadowed_prefix_use(b, name, sh) {
+                        return true;
+                    }
+                }
+                if let Some(b) = else_block {
+                    if shadowed_prefix_use(b, name, sh) {
+                        return true;
+                    }
+                }
+            }
+            Stmt::Function { func, .. } => {
+                if shadowed_prefix_use(&func.body, name, sh || func.params.iter().any(|p| p.name == name)) {
+                    return true;
+                }
+            }
+            _ => {}
+        }
+        // function expressions inside the statement's expressions
+        for e in exprs {
+            if fn_bodies_use(e, name, sh) {
+                return true;
+            }
+        }
+    }
+    false
+}
+
+fn fn_bodies_use(e: &Expr, name: &str, sh: bool) -> bool {
+    match e {
+        Expr::Function(f) => shadowed_prefix_use(&f.body, name, sh || f.params.iter().any(|p| p.name == name)),
+        Expr::Call { func, args, .. } => fn_bodies_use(func, name, sh) || args.iter().any(|a| fn_bodies_use(a, name, sh)),
+        Expr::MethodCall { obj, args, .. } => fn_bodies_use(obj, name, sh) || args.iter().any(|a| fn_bodies_use(a, name, sh)),
+        Expr::Paren(a) | Expr::Unary(_, a) | Expr::Field(a, _) => fn_bodies_use(a, name, sh),
+        Expr::Binary(_, a, b) | Expr::Index(a, b) => fn_bodies_use(a, name, sh) || fn_bodies_use(b, name, sh),
+        Expr::Table(items) => items.iter().any(|it| match it {
+            TableItem::Pos(v) | TableItem::Named(_, v) => fn_bodies_use(v, name, sh),
+            TableItem::Keyed(k, v) => fn_bodies_use(k, name, sh) || fn_bodies_use(v, name, sh),
+        }),
+        _ => false,
+    }
+}
+
+fn prefix_use(e: &Expr, name: &str) -> bool {
+    let is = |x: &Expr| matches!(x, Expr::Name(n) if n == name);
+    match e {
+        Expr::Field(a, _) => is(a) || prefix_use(a, name),
+        Expr::Index(a, k) => is(a) || prefix_use(a, name) || prefix_use(k, name),
+        Expr::Call { func, args, .. } => is(func) || prefix_use(func, name) || args.iter().any(|a| prefix_use(a, name)),
+        Expr::MethodCall { obj, args, .. } => is(obj) || prefix_use(obj, name) || args.iter().any(|a| prefix_use(a, name)),
+        Expr::Paren(a) | Expr::Unary(_, a) => prefix_use(a, name),
+        Expr::Binary(_, a, b) => prefix_use(a, name) || prefix_use(b, name),
+        Expr::Table(items) => items.iter().any(|it| match it {
+            TableItem::Pos(v) | TableItem::Named(_, v) => prefix_use(v, name),
+            TableItem::Keyed(k, v) => prefix_use(k, name) || prefix_use(v, name),
+        }),
+        _ => false,
+    }
+}
+
 pub fn classify(src: &str, rules: &[String]) -> String {
     let Ok(block) = parse_block(src, Mode::Luau) else { return "unparsable-source".into() };
     let has = |r: &str| rules.iter().any(|x| x == r);
     let mut found: Vec<&'static str> = vec![];
     let mut v = Finder { found: &mut found };
     v.block(&block, false);
+    if let Some(name) = INJECT_NAME.with(|n| n.borrow().clone()) {
+        if shadowed_prefix_use(&block, &name, false) {
+            found.push("injected_name_shadowed_in_prefix_position");
+        }
+    }
     // order matters: most specific first
+    // triggers needing two rules
+    if has("compute_expression") && has("remove_if_expression") && found.contains(&"if_expression_with_multivalue_branch_in_tail_position") {
+        return "if_expression_with_multivalue_branch_in_tail_position".into();
+    }
+    if has("remove_nil_declaration") && has("group_local_assignment") && found.contains(&"consecutive_locals_redeclaring_a_name") {
+        return "consecutive_locals_redeclaring_a_name".into();
+    }
     for (trigger, rule) in [
         ("and_or_const_left_multivalue_right_in_tail_position", "compute_expression"),
         ("continue_in_repeat_until_reading_body_local", "remove_continue"),
         ("if_expression_with_two_or_more_elseif", "remove_if_expression"),
         ("local_with_more_values_than_names_followed_by_local", "group_local_assignment"),
         ("injected_name_shadowed_in_prefix_position", "inject_global_value"),
+        ("local_with_duplicate_names_and_nil_value", "remove_nil_declaration"),
+        ("sqrt_of_negated_expression", "convert_square_root_call"),
+        ("interpolated_string_with_holes_in_unused_local", "remove_unused_variable"),
     ] {
         if has(rule) && found.contains(&trigger) {
             return trigger.to_string();
@@ -44,8 +174,23 @@ impl<'a> Finder<'a> {
     fn block(&mut self, b: &Block, _in_repeat: bool) {
         for (i, s) in b.stmts.iter().enumerate() {
             if let Stmt::Local { names, values, .. } = s {
+                let mut ns: Vec<&String> = names.iter().map(|b| &b.name).collect();
+                let total = ns.len();
+                ns.sort();
+                ns.dedup();
+                if ns.len() < total && values.iter().any(|v| matches!(v, Expr::Nil)) {
+                    self.add("local_with_duplicate_names_and_nil_value");
+                }
+                if let Some(Stmt::Local { names: n2, .. }) = b.stmts.get(i + 1) {
+                    if n2.iter().any(|x| names.iter().any(|y| y.name == x.name)) {
+                        self.add("consecutive_locals_redeclaring_a_name");
+                    }
+                }
+                if values.iter().any(|v| matches!(v, Expr::Interp(p) if p.iter().any(|x| matches!(x, InterpPart::Expr(_))))) {
+                    self.add("interpolated_string_with_holes_in_unused_local");
+                }
                 if values.len() > names.len() {
-                    if let Some(Stmt::Local { .. }) = b.stmts.get(i + 1) {
+                    if let Some(Stmt::Local { .. } | Stmt::LocalFunction { .. }) = b.stmts.get(i + 1) {
                         self.add("local_with_more_values_than_names_followed_by_local");
                     }
                 }
@@ -59,6 +204,11 @@ impl<'a> Finder<'a> {
         if let Some(Expr::Binary(op, l, r)) = es.last() {
             if matches!(op, BinOp::And | BinOp::Or) && is_const_literal(l) && r.is_multi() {
                 self.add("and_or_const_left_multivalue_right_in_tail_position");
+            }
+        }
+        if let Some(Expr::IfExpr { clauses, else_ }) = es.last() {
+            if else_.is_multi() || clauses.iter().any(|(_, v)| v.is_multi()) {
+                self.add("if_expression_with_multivalue_branch_in_tail_position");
             }
         }
         for e in es {
@@ -173,6 +323,17 @@ impl<'a> Finder<'a> {
             }
             Expr::Field(a, _) | Expr::Unary(_, a) | Expr::Paren(a) | Expr::Cast(a, _) | Expr::TypeInstantiation(a, _) => self.expr(a),
             Expr::Call { func, args, .. } => {
+                if let Expr::Field(m, f) = &**func {
+                    if f == "sqrt" && matches!(&**m, Expr::Name(n) if n == "math") {
+                        let mut a = args.first();
+                        while let Some(Expr::Paren(x)) = a {
+                            a = Some(&**x);
+                        }
+                        if let Some(Expr::Unary(UnOp::Neg, _)) = a {
+                            self.add("sqrt_of_negated_expression");
+                        }
+                    }
+                }
                 self.expr(func);
                 self.tail(args);
             }
